@@ -31,11 +31,17 @@ def copy_msg(m):
 
 
 def raw_abs(seq):
-    return seq._abs._messages if (not seq._abs_stale and seq._abs is not None) else None
+    if seq._abs_stale:
+        return None
+    a = getattr(seq, "_abs", None)
+    return a._messages if a is not None else None
 
 
 def raw_rel(seq):
-    return seq._rel._messages if (not seq._rel_stale and seq._rel is not None) else None
+    if seq._rel_stale:
+        return None
+    r = getattr(seq, "_rel", None)
+    return r._messages if r is not None else None
 
 
 def freshness(seq) -> str:
@@ -50,13 +56,14 @@ def freshness(seq) -> str:
 
 
 def make_sequence(abs_msgs, rel_msgs):
-    """Build a Sequence from raw message lists without going through Sequence.__init__'s defaults."""
-    s = Sequence.__new__(Sequence)
-    s._abs = AbsoluteSequence(list(abs_msgs)) if abs_msgs is not None else None
-    s._rel = RelativeSequence(list(rel_msgs)) if rel_msgs is not None else None
-    s._abs_stale = abs_msgs is None
-    s._rel_stale = rel_msgs is None
-    return s
+    """Build a Sequence holding exactly the given view(s) through the public constructor (abs-only, rel-only or both), so
+    that attributes a future Sequence.__init__ may add are present on harness-built objects too."""
+    if abs_msgs is None and rel_msgs is None:
+        s = Sequence()
+        s.invalidate_abs()   # both stale: only used to report unreadability
+        return s
+    return Sequence(absolute_sequence=AbsoluteSequence(list(abs_msgs)) if abs_msgs is not None else None,
+                    relative_sequence=RelativeSequence(list(rel_msgs)) if rel_msgs is not None else None)
 
 
 def clone_seq(seq):
